@@ -29,15 +29,17 @@ REACTIONS = [
     [R([("A", 1)], [("B", 1)], 0.8, 0.2)],
     [R([("A", 2)], [("B", 1)], 0.05, 0.1), R([], [("A", 1)], 0.5)],
     [R([("A", 1), ("B", 1)], [("C", 1)], 0.02, 0.3), R([("A", 3)], [("C", 1)], 0.001), R([("C", 1)], [], 0.4)],
+    [R([("A", 1), ("D", 1)], [("C", 1)], 0.02, 0.3), R([("B", 2)], [("D", 1)], 0.01, 0.2), R([("C", 1)], [("A", 1), ("B", 1)], 0.4),
+     R([], [("D", 1)], 0.3)],
 ]
 
 
 def spaces(tier):
     out = []
-    shapes = [(w, h, d) for w in (1, 2, 3) for h in (1, 2, 3) for d in (1, 2, 3)]
+    shapes = [(w, h, d) for w in (1, 2, 3) for h in (1, 2, 3) for d in (1, 2, 3)] + [(4, 4, 1), (5, 1, 2), (4, 3, 2), (1, 5, 1)]
     bcs = [dict(zip("xyz", c)) for c in itertools.product(["reflecting", "periodical"], repeat=3)]
     if tier == "quick":
-        shapes = [(1, 1, 1), (2, 1, 1), (1, 2, 1), (1, 1, 3), (2, 2, 1), (3, 2, 1), (2, 2, 2), (3, 1, 2)]
+        shapes = [(1, 1, 1), (2, 1, 1), (1, 2, 1), (1, 1, 3), (2, 2, 1), (3, 2, 1), (2, 2, 2), (3, 1, 2), (4, 4, 1), (5, 1, 2)]
         bcs = [bcs[0], bcs[7], bcs[4], bcs[2]]
     for (w, h, d) in shapes:
         for bc in bcs:
@@ -100,21 +102,32 @@ def shape_cases(tier, seed0):
                             continue
                         if isp == "none" and engine != "euler" and stname == "fractions":
                             continue  # a non-integer state is not a valid molecular state without processing
-                        ns = 1 + (k % 3)
-                        rx = REACTIONS[min(k % 4, 3 if ns == 3 else (2 if ns >= 2 else 0))]
+                        ns = 1 + (k % 4)
+                        rx = REACTIONS[4] if ns == 4 else REACTIONS[min(k % 4, 3 if ns == 3 else (2 if ns >= 2 else 0))]
                         if ns == 1:
                             rx = [R([], [("A", 1)], 0.5)] if k % 2 else []
                         elif ns == 2 and rx is REACTIONS[3]:
                             rx = REACTIONS[2]
+                        if engine == "tauleap" and stname == "million" and ns == 4:
+                            rx = REACTIONS[1]
                         if engine == "tauleap" and stname == "million" and spname != "grid1x1x1:rrr" and ns > 1:
                             # second/third-order channels at 1e6 molecules give per-step Poisson means above INT_MAX
                             # (recorded known finding, kept visible on the single-cell grid only)
                             rx = REACTIONS[1]
-                        spec = {"species": [{"label": "ABC"[s], "D": [{"default": 0.5, "": 0.25}, 0.0, 0.3][s]} for s in range(ns)],
+                        spec = {"species": [{"label": "ABCD"[s], "D": [{"default": 0.5, "": 0.25}, 0.0, 0.3, {"e1": 0.2}][s]} for s in range(ns)],
                                 "reactions": rx, "envs": ["e0", "e1"], "space": space, "state": state_for(stname, ns, n)}
                         sc = {"system": spec, "time_step": 0.125, "policy": pol, "seed": seeds[k % len(seeds)], "isp": isp}
                         sc.update(samp)
                         yield {"sub": "shape", "engine": engine, "space": spname, "state_class": stname, "script": sc}
+
+
+def pinned_cases():
+    """Inputs of recorded known findings are kept in the catalogue explicitly so that the finding stays visible."""
+    spec = {"species": [{"label": "A", "D": 0.5}, {"label": "B", "D": 0.0}],
+            "reactions": [R([("A", 2)], [("B", 1)], 0.05, 0.1)], "envs": ["e0", "e1"],
+            "space": {"type": "grid", "w": 1, "h": 1, "d": 1, "bc": {}, "env": [0], "vol": 1.5}, "state": [1.0e6, 0.0]}
+    yield {"sub": "shape", "engine": "tauleap", "space": "grid1x1x1:rrr", "state_class": "million",
+           "script": {"system": spec, "time_step": 0.125, "policy": "on_t_sample", "seed": 0, "isp": "none", "t_sample": [0, 0.25, 0.5]}}
 
 
 def run_script(case, variant):
@@ -229,7 +242,7 @@ def run(ctx):
     eng.so_path("san")
     eng.so_path("plain")
     hjobs, subs = c10.build_jobs(ctx.tier, ctx.seed, d1=4 if ctx.tier == "quick" else 6, d2=3 if ctx.tier == "quick" else 5)
-    sc = list(shape_cases(ctx.tier, ctx.seed))
+    sc = list(shape_cases(ctx.tier, ctx.seed)) + list(pinned_cases())
     _JOBS = [("shape", c) for c in sc] + hjobs
     ctx.sample(sc[len(sc) // 2])
     for j in hjobs[40:42] + hjobs[-1:]:
